@@ -492,3 +492,87 @@ Proof.
         rewrite <- !app_assoc in Hp. apply app_inv_head in Hp. discriminate.
       * rewrite <- !app_assoc in Hp. eapply Hpart; [exact Hp|exact Hu'].
 Qed.
+
+(* ---------- the flat root directory as a faithful map of side files ---------- *)
+(* The backend keeps user metadata in files named by [metadata_name bucket key None] directly in the root, next to every
+   other bucket's.  Reading, writing and deleting by name, and deleting a bucket's side files by name prefix, behave exactly
+   like a map keyed by (bucket, key): no operation on one key or bucket is visible at another. *)
+Definition root_files := list (bytes * bytes).          (* file name -> content *)
+Fixpoint rf_get (n : bytes) (r : root_files) : option bytes :=
+  match r with [] => None | (n', c) :: t => if beq n n' then Some c else rf_get n t end.
+Fixpoint rf_del (n : bytes) (r : root_files) : root_files :=
+  match r with [] => [] | (n', c) :: t => if beq n n' then rf_del n t else (n', c) :: rf_del n t end.
+Definition rf_put (n c : bytes) (r : root_files) : root_files := (n, c) :: rf_del n r.
+(* delete_bucket_side_files: every root entry whose name starts with the bucket's side-file prefix *)
+Definition rf_del_bucket (bk : bytes) (r : root_files) : root_files := filter (fun e => negb (is_prefix (side_prefix bk) (fst e))) r.
+
+Definition meta_get (r : root_files) (bk k : bytes) : option bytes := rf_get (metadata_name bk k None) r.
+
+Lemma rf_get_del_eq n r : rf_get n (rf_del n r) = None.
+Proof. induction r as [|[n' c] t IH]; cbn [rf_del rf_get]; [reflexivity|]. destruct (beq n n') eqn:E; [exact IH|]. cbn [rf_get]. rewrite E. exact IH. Qed.
+Lemma rf_get_del_ne n m r : n <> m -> rf_get n (rf_del m r) = rf_get n r.
+Proof.
+  intros H. induction r as [|[n' c] t IH]; cbn [rf_del rf_get]; [reflexivity|].
+  destruct (beq m n') eqn:E.
+  - apply beq_true in E. subst n'. destruct (beq n m) eqn:E2; [apply beq_true in E2; contradiction|exact IH].
+  - cbn [rf_get]. rewrite IH. reflexivity.
+Qed.
+
+Lemma metadata_name_inj bk k bk' k' :
+  wf bk -> wf bk' -> wf k -> wf k' -> metadata_name bk k None = metadata_name bk' k' None -> bk = bk' /\ k = k'.
+Proof.
+  intros Hb Hb' Hk Hk'. unfold metadata_name, side_prefix. rewrite <- !app_assoc. cbn [app].
+  intros E. apply app_inv_head in E.
+  change (b ".object-") with (46 :: b "object-") in E. cbn [app] in E.
+  apply app_sep_unique in E as [E1 E2]; try (apply b64url_no; exact not_alpha_46).
+  apply app_inv_head in E2.
+  change (b ".metadata.json") with (46 :: b "metadata.json") in E2.
+  apply app_sep_unique in E2 as [E2 _]; try (apply b64url_no; exact not_alpha_46).
+  split; apply b64url_inj; assumption.
+Qed.
+
+Lemma is_prefix_refl_app p r : is_prefix p (p ++ r) = true.
+Proof. induction p as [|a p IH]; cbn [app is_prefix]; [reflexivity|]. rewrite N.eqb_refl. exact IH. Qed.
+
+(* write then read: the same key sees the new value, every other (bucket, key) is untouched *)
+Theorem meta_put_get r bk k v bk' k' : wf bk -> wf bk' -> wf k -> wf k' ->
+  meta_get (rf_put (metadata_name bk k None) v r) bk' k' = if beq bk bk' && beq k k' then Some v else meta_get r bk' k'.
+Proof.
+  intros Hb Hb' Hk Hk'. unfold meta_get, rf_put. cbn [rf_get].
+  destruct (beq (metadata_name bk' k' None) (metadata_name bk k None)) eqn:E.
+  - apply beq_true in E. apply metadata_name_inj in E as [-> ->]; try assumption. rewrite !beq_refl. reflexivity.
+  - destruct (beq bk bk' && beq k k') eqn:E2.
+    + apply andb_prop in E2 as [E2 E3]. apply beq_true in E2, E3. subst. rewrite beq_refl in E. discriminate.
+    + apply rf_get_del_ne. intros En. rewrite En, beq_refl in E. discriminate.
+Qed.
+
+(* delete: gone at the key, untouched elsewhere *)
+Theorem meta_del_get r bk k bk' k' : wf bk -> wf bk' -> wf k -> wf k' ->
+  meta_get (rf_del (metadata_name bk k None) r) bk' k' = if beq bk bk' && beq k k' then None else meta_get r bk' k'.
+Proof.
+  intros Hb Hb' Hk Hk'. unfold meta_get.
+  destruct (beq bk bk' && beq k k') eqn:E2.
+  - apply andb_prop in E2 as [E2 E3]. apply beq_true in E2, E3. subst. apply rf_get_del_eq.
+  - apply rf_get_del_ne. intros En. apply metadata_name_inj in En as [-> ->]; try assumption. rewrite !beq_refl in E2. discriminate.
+Qed.
+
+(* deleting a bucket's side files by name prefix removes exactly that bucket's metadata, whatever the other names are -
+   also when one bucket name is a prefix of the other *)
+Theorem meta_del_bucket_get r bk bk' k' : wf bk -> wf bk' ->
+  meta_get (rf_del_bucket bk r) bk' k' = if beq bk bk' then None else meta_get r bk' k'.
+Proof.
+  intros Hb Hb'. unfold meta_get, rf_del_bucket.
+  assert (Hpre : is_prefix (side_prefix bk) (metadata_name bk' k' None) = beq bk bk').
+  { destruct (beq bk bk') eqn:E.
+    - apply beq_true in E. subst. unfold metadata_name. apply is_prefix_refl_app.
+    - destruct (is_prefix (side_prefix bk) (metadata_name bk' k' None)) eqn:E2; [|reflexivity].
+      exfalso. unfold metadata_name in E2.
+      rewrite (side_prefix_separates bk bk' _ _ Hb Hb' E2 eq_refl), beq_refl in E. discriminate. }
+  induction r as [|[n c] t IH]; cbn [filter rf_get fst].
+  - destruct (beq bk bk'); reflexivity.
+  - destruct (is_prefix (side_prefix bk) n) eqn:En; cbn [negb].
+    + destruct (beq (metadata_name bk' k' None) n) eqn:E; [|exact IH].
+      apply beq_true in E. subst n. rewrite Hpre in En. rewrite En in *. exact IH.
+    + cbn [rf_get]. destruct (beq (metadata_name bk' k' None) n) eqn:E; [|exact IH].
+      apply beq_true in E. subst n. rewrite Hpre in En. rewrite En. reflexivity.
+Qed.
